@@ -206,6 +206,11 @@ class _Normaliser:
                     out[i] = r5
                     self.changed += 1
             if isinstance(s, ast.For):
+                r7 = self._n7(out, i)
+                if r7 is not None:
+                    out[i] = r7
+                    s = r7
+                    self.changed += 1
                 self._resolve_len_bound(out, i)
                 r2 = self._n2(s)
                 if r2 is not None:
@@ -213,6 +218,68 @@ class _Normaliser:
                     self.changed += 1
             i += 1
         return out
+
+    # ------------------------------------------------------------------ N7
+    @staticmethod
+    def _n7(block: List[ast.stmt], fi: int) -> Optional[ast.For]:
+        """`L = []` directly before `for v in X:` whose body appends to L exactly once, unconditionally, as its last top-level use of
+        L, and otherwise only reads `len(L)` before that append: `len(L)` there is the number of completed iterations, i.e. the
+        index `enumerate` would give - `for i, v in enumerate(X)` with `len(L)` replaced by `i`."""
+        f = block[fi]
+        if fi == 0 or f.orelse or not isinstance(f.target, ast.Name):
+            return None
+        pre = block[fi - 1]
+        if not (isinstance(pre, ast.Assign) and len(pre.targets) == 1 and isinstance(pre.targets[0], ast.Name) and
+                isinstance(pre.value, ast.List) and not pre.value.elts):
+            return None
+        L = pre.targets[0].id
+
+        def is_append(st):
+            return isinstance(st, ast.Expr) and isinstance(st.value, ast.Call) and isinstance(st.value.func, ast.Attribute) and \
+                st.value.func.attr == 'append' and isinstance(st.value.func.value, ast.Name) and st.value.func.value.id == L and \
+                len(st.value.args) == 1 and not st.value.keywords
+        apps = [k for k, st in enumerate(f.body) if is_append(st)]
+        if len(apps) != 1:
+            return None
+        k = apps[0]
+        if any(isinstance(y, (ast.Continue, ast.Break, ast.Return)) for st in f.body for y in ast.walk(st)):
+            return None
+        lens = []
+        for j, st in enumerate(f.body):
+            for y in ast.walk(st):
+                if isinstance(y, ast.Name) and y.id == L:
+                    if j == k and y is f.body[k].value.func.value:
+                        continue
+                    par_ok = False
+                    for z in ast.walk(st):
+                        if isinstance(z, ast.Call) and isinstance(z.func, ast.Name) and z.func.id == 'len' and len(z.args) == 1 and z.args[0] is y:
+                            par_ok = True
+                            lens.append(z)
+                    if not par_ok or j > k:
+                        return None
+        if not lens:
+            return None
+        if any(isinstance(y, (ast.FunctionDef, ast.Lambda, ast.ClassDef)) for st in f.body for y in ast.walk(st)):
+            return None
+        idx = f"_n7i{f.lineno}"
+        import copy
+        f2 = copy.deepcopy(f)
+        orig = list(ast.walk(f))
+        cp = list(ast.walk(f2))
+        ids = {id(z) for z in lens}
+        repl = {id(c): True for o, c in zip(orig, cp) if id(o) in ids}
+
+        class R(ast.NodeTransformer):
+            def visit_Call(self, n):
+                if id(n) in repl:
+                    return ast.copy_location(ast.Name(id=idx, ctx=ast.Load()), n)
+                return self.generic_visit(n)
+        f2 = R().visit(f2)
+        f2.target = ast.Tuple(elts=[ast.Name(id=idx, ctx=ast.Store()), f2.target], ctx=ast.Store())
+        f2.iter = ast.Call(func=ast.Name(id='enumerate', ctx=ast.Load()), args=[f2.iter], keywords=[])
+        ast.copy_location(f2.target, f)
+        ast.fix_missing_locations(f2)
+        return f2
 
     # ------------------------------------------------------------------ N1
     def _n1(self, block: List[ast.stmt], wi: int) -> Optional[List[ast.stmt]]:
@@ -753,6 +820,10 @@ def _synthesise_dataclass_inits(tree: ast.Module) -> int:
     with a factory, `InitVar`, `kw_only` or `__post_init__` are left alone (unsupported: their constructor calls stay opaque)."""
     n = 0
     aliases = {}
+    nt_names = {'NamedTuple'}
+    for s0 in tree.body:
+        if isinstance(s0, ast.ImportFrom) and s0.module == 'typing':
+            nt_names |= {a.asname for a in s0.names if a.name == 'NamedTuple' and a.asname}
     for s0 in tree.body:
         if isinstance(s0, ast.Assign) and len(s0.targets) == 1 and isinstance(s0.targets[0], ast.Name) and isinstance(s0.value, ast.Call):
             f0 = s0.value.func
@@ -769,15 +840,20 @@ def _synthesise_dataclass_inits(tree: ast.Module) -> int:
             nm = nm.id if isinstance(nm, ast.Name) else (nm.attr if isinstance(nm, ast.Attribute) else None)
             if nm == 'dataclass':
                 deco = d
-        if deco is None:
+        # `class _Slot(NamedTuple): a: int; b: int = 0` has the same generated constructor (and is a tuple of its fields besides)
+        is_nt = any((isinstance(b, ast.Name) and b.id in nt_names) or (isinstance(b, ast.Attribute) and b.attr == 'NamedTuple')
+                    for b in node.bases)
+        if deco is None and not is_nt:
             continue
         if isinstance(deco, ast.Call) and any(k.arg in ('init', 'kw_only') and not (isinstance(k.value, ast.Constant) and k.value.value is
                                                                                    (True if k.arg == 'init' else False)) for k in deco.keywords):
             continue
         if any(isinstance(s, ast.FunctionDef) and s.name in ('__init__', '__post_init__') for s in node.body):
             continue
-        if any(isinstance(b, ast.Name) and b.id != 'object' or isinstance(b, ast.Attribute) for b in node.bases):
+        if not is_nt and any(isinstance(b, ast.Name) and b.id != 'object' or isinstance(b, ast.Attribute) for b in node.bases):
             continue            # inherited dataclass fields are not collected
+        if is_nt and len(node.bases) != 1:
+            continue
         fields, ok = [], True
         for s in node.body:
             if isinstance(s, ast.AnnAssign) and isinstance(s.target, ast.Name):
@@ -821,6 +897,8 @@ def _synthesise_dataclass_inits(tree: ast.Module) -> int:
                 y.lineno = y.end_lineno = node.lineno
         # class-level defaults stay (they are also class attributes); the annotations without values are dropped by N0
         node.body.append(init)
+        if is_nt:
+            node._namedtuple_fields = [f for f, _, _ in fields]
         n += 1
     return n
 
